@@ -443,10 +443,12 @@ def pred_e2e(a, go):
             out.append((None, "metadata served from the cache differs from the last answer restricted to the requested names"))
         return out
     ents, status = parse_trace(go)
-    for b, k, v, _ in ents:
+    for b, k, v, x in ents:
         ok, why = version_ok(client, vers.get(b, {}), k, v)
         if not ok:
             out.append((None, f"request api {k} to broker {b} encoded at version {v}: {why}"))
+        if k == 0 and x is not None and (x == 2) != (v >= 3):
+            out.append((None, f"Produce request to broker {b} says version {v} but its records are in format {x}: not encoded at the negotiated version"))
     got = [(b, k) if k != 10 else (b, k, kt) for b, k, _, kt in ents]
     fcver = expected_version(client, vers.get(boot, {}), 10)
     exp, finding = e2e_expect(boot, md, req, fc, fcver)
@@ -474,7 +476,7 @@ def pred_e2erec(a, go):
     n = len(faults.split(","))
     if state != "live":
         return [(None, f"{n} metadata refresh(es) {what}; the brokers answer again and leaders moved, but the cached metadata "
-                       f"did not follow within 3s (50 MetadataTTLs): the refresh loop stopped")]
+                       f"did not follow within 10 MetadataTTLs + 3s: the refresh loop stopped (or ignores MetadataTTL)")]
     ents, status = parse_trace(tr)
     exp, _ = e2e_expect(boot, md1, req, "-")
     got = [(b, k) for b, k, _, _ in ents]
@@ -501,6 +503,11 @@ def predicates(c):
             return pred_ctl(a, go)
         if op == "class":
             return pred_class(a, go)
+        if op == "prep":
+            v, magic = Z(a[0]), Z(go)
+            if (magic == 2) != (v >= 3) or magic not in (1, 2):
+                return [(None, f"Produce v{v} is prepared with record format {magic}: record batches (2) are for v3 and above, message sets (1) below")]
+            return []
         if op == "filter":
             return pred_filter(a, go, c["feats"])
         if op == "layout":
@@ -540,6 +547,8 @@ def correspondence(ctx):
     n = ctx.scale(4000, 20000)
     e2e = ctx.scale(120, 600)
     rec = ctx.scale(24, 120)
+    if getattr(ctx, "search_only_direct", False):
+        n, e2e, rec = 3 * n, 0, 0
     texts = []
     cdir = os.path.join(L.CORPUS, "C12")
     if os.path.isdir(cdir):
@@ -555,6 +564,9 @@ def correspondence(ctx):
             c["id"] = str(len(cases) + 1)
             c["line"] = c["id"] + " " + c["op"] + " " + c["args"]
             cases.append(c)
+    # scenarios a breaker skipped (three of their family had exceeded their bound): not compared
+    not_run = [c for c in cases if c["go"] == "NOT-RUN"]
+    cases = [c for c in cases if c["go"] != "NOT-RUN"]
     res = L.run_model(model, "\n".join(c["line"] for c in cases) + "\n")
     # while a refresh is pending a request may follow the previous or the new view
     plain = [c for c in cases if c["op"] != "e2elag"]
@@ -623,7 +635,9 @@ def correspondence(ctx):
                samples=[c["line"][:300] + " | " + c["go"][:100] for c in cases[:2] + cases[len(cases)//3:len(cases)//3+2]
                         + cases[len(cases)//2:len(cases)//2+2] + cases[-2:]],
                failures=failures,
-               notes=["refresh lag after a cluster change (end-to-end, MetadataTTL 30ms): " + json.dumps(lag_hist, sort_keys=True),
+               notes=([f"{len(not_run)} scenario(s) NOT-RUN: a family breaker tripped after 3 scenarios exceeded their refresh bound"]
+                      if not_run else []) +
+                     ["refresh lag after a cluster change (end-to-end, MetadataTTL 30ms, IdleTimeout 10m; bound 10 TTLs + 3s): " + json.dumps(lag_hist, sort_keys=True),
                       "refresh-loop recovery after timed-out / failed refreshes (MetadataTTL 60ms) and coordinator key types: "
                       + json.dumps(rec_hist, sort_keys=True)],
                extra={})
@@ -631,15 +645,20 @@ def correspondence(ctx):
 
 
 def search(ctx, violations):
-    """A layer broke without a concrete input: a larger differential with another seed; any
-    disagreement whose Go side violates a predicate is a failing input."""
+    """A layer broke without a concrete input: a larger differential of the DIRECT families with
+    another seed (the end-to-end and recovery families are not re-run: they wait on the Transport);
+    any disagreement whose Go side violates a predicate is a failing input."""
+    for v in violations:
+        if v.get("input"):
+            return v["input"]
     ctx.seed += 1000
-    ctx.tier = "thorough"
-    ctx.thorough = True
+    ctx.search_only_direct = True
     try:
         c = correspondence(ctx)
     except L.Fail:
         return None
+    finally:
+        ctx.search_only_direct = False
     for f in c["failures"]:
         if f.get("input"):
             return f["input"]
